@@ -68,7 +68,7 @@ def check_allocator(ctx: Ctx, chk, f, V: str) -> None:
         chk.rule(rule, "the id handed out is max(registered ids) + c with constant c >= 1 (strictly above every key), or 1 when the registry is empty")
         chk.instance(rule)
         key = f"{f.fq}::{idv}"
-        verdict, why = fresh_shape(alloc)
+        verdict, why = fresh_shape(cn.tree(alloc))  # named constants folded, locals written out
         if verdict is True:
             chk.ok(rule, key, f"`{norm(alloc)}`: {why}", ctx.loc(f, alloc))
         elif verdict is False:
